@@ -44,6 +44,10 @@ type Record struct {
 	Key   string                 `json:"key,omitempty"` // distinctness key; empty: trivial case
 	Tags  []string               `json:"tags,omitempty"`
 	Fatal string                 `json:"fatal,omitempty"`
+	// Poison: the case left this worker process unusable (e.g. a library lock that stays locked after a
+	// reported hang). The worker exits right after delivering the record; the parent starts a new
+	// worker at the next case.
+	Poison bool `json:"poison,omitempty"`
 }
 
 var Props = map[string]Prop{}
@@ -72,6 +76,9 @@ func Worker(prop string, seed int64, from, to int, tier string, out io.Writer) {
 			rec.I = i
 			enc.Encode(rec)
 			w.Flush()
+			if rec.Poison {
+				os.Exit(4)
+			}
 		case <-time.After(20 * time.Second):
 			fmt.Fprintf(w, "#timeout %d\n", i)
 			w.Flush()
@@ -176,6 +183,7 @@ type RunOpts struct {
 	SpecExe   string
 	ImplExe   string
 	PegExe    string
+	PegGoExe  string // jpv-peggo; may be empty or missing (then its questions are skipped and counted)
 	ReplayDir string
 	Self      string // path of this executable
 	Workers   int
@@ -318,6 +326,9 @@ func RunParent(o RunOpts) Summary {
 		if name == "peg" {
 			path = o.PegExe
 		}
+		if name == "peggo" {
+			path = o.PegGoExe
+		}
 		d, err := StartDriver(path)
 		if err != nil {
 			fmt.Fprintf(os.Stderr, "cannot start lean driver %s: %v\n", path, err)
@@ -358,6 +369,13 @@ func RunParent(o RunOpts) Summary {
 			}
 		}
 		for _, q := range rec.Q {
+			if q.Driver == "peggo" {
+				// optional driver: it does not exist when the `pegrules` generator refused the source
+				if _, err := os.Stat(o.PegGoExe); o.PegGoExe == "" || err != nil {
+					sum.Dist["lean:peggo:unavailable"]++
+					continue
+				}
+			}
 			d := getDriver(q.Driver)
 			ans, err := d.AskTimeout(q.Line, 15*time.Second)
 			sum.LeanAsked++
